@@ -54,6 +54,10 @@ def gen_cases(seed, tier):
                 u = rng.random()
                 c["max_eval_iter"] = AMPLE if u < 0.8 else (100 if u < 0.9 else int(rng.integers(1, 6)))
                 c["reset"] = bool(rng.integers(0, 2))
+                # self-consistent warm start: a (generally suboptimal) incumbent policy together with its
+                # own exact value function, or a constant-reward incumbent with zero values - the very
+                # first evaluation sweep already passes the stopping test
+                c["warm"] = [None, None, None, "incumbent", "flat"][int(rng.integers(0, 5))]
             if sv == "sa":
                 c["shuffle"] = bool(rng.integers(0, 2))
                 c["random_seed"] = int(rng.integers(0, 10**6))
@@ -86,13 +90,41 @@ def bounds(sv, test, eps, g):
     raise ValueError(sv)
 
 
+def warm_problem(case, g):
+    """Tabular problem whose initial policy / initial values are self-consistent (see gen_cases)."""
+    from vf import tabular, target
+
+    spec = case["spec"]
+    t = gen.build(spec)
+    P, R = refmdp.tables(t["nxt"], t["rew"], t["prob"])
+    S, A = R.shape
+    r = np.random.default_rng(spec["gseed"] + 5)
+    if case["warm"] == "incumbent":
+        pi0 = r.integers(0, A, size=S) if t.get("ipol") is None else np.asarray(t["ipol"])
+        t["ipol"] = pi0
+        t["init"] = refmdp.evalpi(P, R, pi0, g)
+    else:  # "flat": action 0 earns the same expected reward c in every state; v0 = c/(1-g)
+        c = float(r.normal() * spec["scale"])
+        t["rew"][:, 0, :] = c
+        t["ipol"] = np.zeros(S, dtype=int)
+        t["init"] = np.full(S, c / (1.0 - g)) if r.random() < 0.5 else None
+        if t["init"] is None:
+            t["rew"][:, 0, :] = 0.0
+    problem = target.call("construct problem", tabular.make, spec, t)
+    return (problem, t["nxt"], t["rew"], t["prob"], float(spec["scale"]), spec["structure"] + "+warm-" + case["warm"],
+            list(gen.interface_class(spec, t)), t)
+
+
 def run_case(case):
     from vf import target
 
-    problem, nxt, rew, prob, scale, struct, iface, t = common.build_problem(case)
+    g, eps, sv, test = case["gamma"], case["epsilon"], case["solver"], case["test"]
+    if case.get("warm") and case.get("kind") == "gen":
+        problem, nxt, rew, prob, scale, struct, iface, t = warm_problem(case, g)
+    else:
+        problem, nxt, rew, prob, scale, struct, iface, t = common.build_problem(case)
     P, R = refmdp.tables(nxt, rew, prob)
     S, A = R.shape
-    g, eps, sv, test = case["gamma"], case["epsilon"], case["solver"], case["test"]
     kw = dict(gamma=g, epsilon=eps, max_batch_size=case["max_batch_size"], convergence_test=test)
     if sv == "pi":
         kw.update(max_eval_iter=case["max_eval_iter"], reset_values_for_each_policy_eval=case["reset"])
